@@ -55,6 +55,15 @@ def gen(rng, tier):
             t['descr'].pop('ranks_per_node', None)
             t['descr'].pop('lfs_per_rank', None)
             t['descr'].pop('mem_per_rank', None)
+    if rng.random() < 0.35:
+        # the agent runs on one of the allocation's nodes; with unpadded
+        # names some node names are prefixes of others
+        lay['short_names'] = True
+        if rng.random() < 0.6:
+            lay['nodes'] = max(lay['nodes'], rng.randint(10, 13))
+            lay['cpn']   = rng.choice([1, 2])
+            lay['blocked_cores'] = []
+        lay['hostname'] = 'n%d' % rng.randint(1, lay['nodes'])
     for t in sc['tasks']:
         t['preplaced'] = False
         t['runtime'] = min(t['runtime'], 0.5)
@@ -90,7 +99,9 @@ def parse(name, cmd, files):
         return None
 
     if n == 'FORK':
+        # no node is named: the process runs where the agent runs
         out['nprocs'] = 1
+        out['nodes']  = [files.get('__hostname__', 'localhost')]
     elif n.startswith('MPIRUN'):
         np_ = int(opt('-np'))
         hosts = None
@@ -200,6 +211,8 @@ def install_spy(sim, st):
                 rec['cmd'] = cmd if isinstance(cmd, str) else ' '.join(cmd)
                 for f in referenced_files(rec['cmd']):
                     rec['files'][f] = _read(f)
+                rec['files']['__hostname__'] = sim.data.get('hostname',
+                                                            'localhost')
             except K.SimKilled:
                 raise
             except BaseException as e:                             # noqa
@@ -245,6 +258,8 @@ def oracle(sim, sc, st):
             sim.violation(PROP, 'nprocs', site, det)
         if p['nodes'] is not None:
             got = sorted(p['nodes'])
+            if rec['lm'].upper() == 'FORK' and want_nodes == ['localhost']:
+                got = ['localhost']         # FORK RM: every node is local
             if rec['lm'].upper().startswith('MPIRUN') and \
                     'MPT' in rec['lm'].upper():
                 pass
